@@ -176,53 +176,67 @@ Theorem c18_rsa_regression_detected : forall c,
 Proof. intros c Hc. apply rsa_regression_detected_gen; [apply c18_consts_wf | exact Hc]. Qed.
 Print Assumptions c18_rsa_regression_detected.
 
-(* sentence 2a, about WHICH certificate is inspected, is FALSE for the pinned
-   tree (verifyLeafLast = 1, re-read from crypto.go on every run): the
-   verifier hashes the LAST entry of the presented chain, TLS authenticates the
-   FIRST.  The chain [unpinned, pinned] is accepted although the server
-   certificate's SHA-256 is not in the address.  Reproduced on the real
-   verifier and by a real Dial (known_findings/C18.json). *)
-Theorem c18_verify_server_cert_refuted : pLeafLast cparams <> 0 ->
-  verify_raw_certs cparams [ex_unpinned; ex_pinned] [(SHA2_256, 2)] = VOk /\
-  advertises [(SHA2_256, 2)] (x_hash ex_unpinned) = false /\
-  monitor_verify [ex_unpinned; ex_pinned] [(SHA2_256, 2)]
-    (z_of_vres (verify_raw_certs cparams [ex_unpinned; ex_pinned] [(SHA2_256, 2)])) <> [].
-Proof. intros Hr. apply verify_chain_refuted_gen; [exact Hr | apply c18_consts_wf]. Qed.
-Print Assumptions c18_verify_server_cert_refuted.
+(* regenerated obligation: verifyRawCerts inspects rawCerts[0] (the index is
+   re-read from crypto.go on every run into gen/Consts_c18.v).  If the source
+   goes back to rawCerts[len(rawCerts)-1] this proof, and with it the two
+   theorems below, no longer checks. *)
+Theorem c18_verifier_inspects_first : pLeafLast cparams = 0.
+Proof. vm_compute. reflexivity. Qed.
+Print Assumptions c18_verifier_inspects_first.
 
-(* ... and holds under the hypothesis the proof forces ([inspects_server_cert]:
-   the chain has at most one entry (the single-certificate rows) or the
-   verifier looks at rawCerts[0]): the monitor run on the implementation accepts
-   whatever the model answers *)
-Theorem c18_verify_server_cert_partial : forall chain hashes,
-  inspects_server_cert cparams chain ->
+(* sentence 2a, about WHICH certificate is judged: for every presented chain
+   (any length) and every hash list, whenever the verifier accepts, the SERVER
+   certificate — the first of the chain, the one TLS authenticates — is pinned
+   under the sha2-256 code, parses, is not RSA, is valid for at most 14 days and
+   is currently valid; an empty chain is never accepted.  I.e. the monitor that
+   is run on the implementation accepts whatever the model answers.
+   No hypothesis. *)
+Theorem c18_verify_server_cert : forall chain hashes,
   monitor_verify chain hashes (z_of_vres (verify_raw_certs cparams chain hashes)) = [].
 Proof.
-  intros chain hashes Hi. destruct c18_consts_wf as (_ & _ & HM).
-  apply monitor_verify_ok; [rewrite HM; lia | exact Hi].
+  intros chain hashes. destruct c18_consts_wf as (_ & _ & HM).
+  apply monitor_verify_ok; [rewrite HM; lia | left; exact c18_verifier_inspects_first].
 Qed.
-Print Assumptions c18_verify_server_cert_partial.
+Print Assumptions c18_verify_server_cert.
 
-(* ... for every chain once the verifier inspects rawCerts[0] *)
-Theorem c18_verify_server_cert_if_repaired : pLeafLast cparams = 0 -> forall chain hashes,
-  monitor_verify chain hashes (z_of_vres (verify_raw_certs cparams chain hashes)) = [].
-Proof. intros Hr chain hashes. apply c18_verify_server_cert_partial. left. exact Hr. Qed.
-Print Assumptions c18_verify_server_cert_if_repaired.
+(* a regression of the choice of certificate is detected (non-vacuity of the
+   clause above, on the parametric model): with the same constants but the LAST
+   certificate of the chain inspected, [unpinned; pinned] is accepted although
+   the server certificate's hash is not in the address, and the monitor rejects
+   that acceptance; the current model refuses the chain.  The harness presents
+   chains of two and three (first / last / all pinned, bad first certificate)
+   to the real verifier and to a real Dial on every run. *)
+Theorem c18_server_cert_regression_detected :
+  let p1 := mkParams (pV cparams) (pS cparams) (pMaxLife cparams) 1 in
+  verify_raw_certs p1 [ex_unpinned; ex_pinned] [(SHA2_256, 2)] = VOk /\
+  advertises [(SHA2_256, 2)] (x_hash ex_unpinned) = false /\
+  monitor_verify [ex_unpinned; ex_pinned] [(SHA2_256, 2)]
+    (z_of_vres (verify_raw_certs p1 [ex_unpinned; ex_pinned] [(SHA2_256, 2)])) <> [] /\
+  verify_raw_certs cparams [ex_unpinned; ex_pinned] [(SHA2_256, 2)] = VMismatch.
+Proof.
+  cbv zeta. destruct c18_consts_wf as (_ & _ & HM).
+  destruct (last_cert_verifier_accepts_unpinned_chain
+              (mkParams (pV cparams) (pS cparams) (pMaxLife cparams) 1)) as (A & B & C);
+    [cbn; discriminate | exact HM |].
+  split; [exact A | split; [exact B | split; [exact C |]]].
+  apply first_cert_verifier_refuses_unpinned_chain. exact c18_verifier_inspects_first.
+Qed.
+Print Assumptions c18_server_cert_regression_detected.
 
 (* sentence 2b: the dialer completes the connection only if the certificate
    check passed AND the server's early data decoded AND every hash of the
-   dialed address is in it; and the dial monitor accepts the model's answers
-   (same hypothesis as above about the inspected certificate) *)
+   dialed address is in it; and the dial monitor (server certificate pinned and
+   within the rules, every address hash confirmed) accepts whatever the model
+   answers, for every chain.  No hypothesis. *)
 Theorem c18_dialer_requires_confirmation : forall chain addr dec srv,
   (dial cparams chain addr dec srv = 0 ->
    verify_raw_certs cparams chain addr = VOk /\ dec = true /\ forall h, In h addr -> In h srv) /\
-  (inspects_server_cert cparams chain ->
-   monitor_dial chain addr dec srv (dial cparams chain addr dec srv) = []).
+  monitor_dial chain addr dec srv (dial cparams chain addr dec srv) = [].
 Proof.
   intros chain addr dec srv. split.
   - apply dial_connected_inv.
-  - intros Hi. destruct c18_consts_wf as (_ & _ & HM).
-    apply monitor_dial_ok; [rewrite HM; lia | exact Hi].
+  - destruct c18_consts_wf as (_ & _ & HM).
+    apply monitor_dial_ok; [rewrite HM; lia | left; exact c18_verifier_inspects_first].
 Qed.
 Print Assumptions c18_dialer_requires_confirmation.
 
